@@ -287,6 +287,16 @@ def run(prog, rep):
         if v not in types:
             rep.violation('R2', loc(amod, az.assigns['NSTYPE_LUT']), f'{az.name}.NSTYPE_LUT', f'{k} -> {v} has no type/category',
                           f'the attribute id for {k} is not in ATTRIBUTE_TYPES_AND_CATEGORIES')
+    # distinct service types list their sites under distinct attribute ids
+    by_val = {}
+    for k, v in nstype.items():
+        by_val.setdefault(v, []).append(k)
+    rep.instance('R2', f'NSTYPE_LUT is one-to-one: {all(len(ks) == 1 for ks in by_val.values())}')
+    for v, ks in sorted(by_val.items(), key=lambda kv: str(kv[0])):
+        if len(ks) > 1:
+            rep.violation('R2', loc(amod, az.assigns['NSTYPE_LUT']), f'{az.name}.NSTYPE_LUT', f'{sorted(map(str, ks))} share the attribute {v}',
+                          f'the service types {sorted(map(str, ks))} list their sites under the same attribute id {v!r}: the sites of one are reported '
+                          f'as sites of the other, and the attribute of its own kind is never produced, so a policy on it is never evaluated')
     # the ext / mirror sites are appended for every such service (site defaulted when unknown)
     rep.instance('R2', 'ns collector appends the site under the per-type attribute id')
     _, ns_contrib = contributions(prog, az, ns)
